@@ -6,3 +6,8 @@ Definition vchar (v : verdict) : ascii :=
   match v with VA => "A" | VV => "V" | VS => "S" | VK => "K" | VO => "O" end%char.
 Fixpoint render (l : list verdict) : string :=
   match l with [] => EmptyString | v :: r => String (vchar v) (render r) end.
+
+(* a second string, one character per case: does the case meet the hypothesis of the property's
+   main theorem?  (statistics for the evidence file, not a verdict) *)
+Fixpoint renderb (l : list bool) : string :=
+  match l with [] => EmptyString | b :: r => String (if b then "1"%char else "0"%char) (renderb r) end.
